@@ -272,14 +272,19 @@ def check_sampler(mon, R, O, tier, rng, label, op=None, extra=None):
                 mon.nontrivial = True
         return
     # --- continuous samplers
-    if hasattr(R, "num_samples"):
-        k, ns = outcome(lambda: R.num_samples)
-        if k != "ok" or ns > 400:
-            # rejection sampler with up to 1e6 candidate points per draw (sliver-like mesh): too costly to drive
-            mon.skip("mesh_sampler_tiny_volume_fraction")
-            return
+    from rt.regionrun import Watchdog, sampling_cost_guard, with_watchdog
+
+    costly = sampling_cost_guard(R)
+    if costly:
+        # unbounded rejection loops of the library on sliver-like regions: not driven (counted)
+        mon.skip("sampler_not_driven_" + costly.replace(" ", "_"))
+        return
     n, cap = n_draws(rc, R, tier)
-    P, tries, rej, err, unsup = draw_points(R, n, cap)
+    try:
+        P, tries, rej, err, unsup = with_watchdog(600, draw_points, R, n, cap)
+    except Watchdog:
+        mon.skip("sampler_watchdog")
+        return
     mon.bump("sampler_attempts", tries)
     mon.bump("sampler_rejections", rej)
     if unsup:
